@@ -338,7 +338,9 @@ def runOp2 {α} [Num2 α] (secs : List (List String)) : String :=
         ovoDecide classes fun q => match bins[q]? with
           | some m => classifyRow 1 false (fun _ => 0) (m.evalB Num.tanh X i)
           | none => 0
-      s!"NP={p.length} PV={showVec p} R={showNats r}"
+      -- parameter vector: the vectors of the binary classifiers in order (the slicing of a chain of optimised layers)
+      let ch : Chain α := bins.toList.map fun m => (Layer.dense m, true)
+      s!"NP={ch.numberOfParameters} PV={showVec ch.params} R={showNats r}"
     | _, _, _ => "bad-op"
   -- cart nIn nCls B | script | X
   | [("cart" :: hd), script, xs] =>
@@ -355,12 +357,14 @@ def runOp2 {α} [Num2 α] (secs : List (List String)) : String :=
     match nats hd, nums cs, nums xs with
     | some [nIn, nC, B, _], some cen, some x =>
       if cen.length != nC * nIn || x.length != B * nIn || nC == 0 then "bad-op" else
-      let Cn := mat cen nIn
+      -- the centroid matrix is packed row by row, like the weight matrix of a dense layer without offset
+      let cm := mkDense .linear false nIn nC cen
+      let Cn := cm.W
       let X := mat x nIn
       let soft := fun i k => softMembership Num.sqrt Num2.tiny Num2.huge nIn nC Cn (X i) k
       let e := matList B nC soft
       let r := (List.range B).map fun i => hardMembership Num.sqrt Num2.tiny Num2.huge nIn nC Cn (X i)
-      s!"NP={cen.length} PV={showVec cen} TS={showMat e} TE={showMat e} R={showNats r}"
+      s!"NP={cm.numberOfParameters} PV={showVec cm.params} TS={showMat e} TE={showMat e} R={showNats r}"
     | _, _, _ => "bad-op"
   -- dropout p n B seed | X | C     (random: checked by the oracle of the harness only)
   | [["dropout", _, n, b, _], xs, cs] =>
